@@ -17,7 +17,7 @@ RULE = (
     "one run = a seeded script of well-formed items (valid frames: recorded real / unassigned-number with payload "
     "2..1023 incl. 255-257,511-513,1023 / padded synthetic of every defined identity; zero-length, 1-byte and 2-byte-4076 "
     "fillers; complete NMEA sentences; complete UBX frames dense in sync bytes, some embedding valid frames; inert noise) "
-    "delivered fault-free over BytesIO, BufferedReader over a chunky raw stream, or a socket with seeded recv "
+    "delivered fault-free over BytesIO, BufferedReader over a chunky raw stream, a (never timing out) serial port double, or a socket with seeded recv "
     "segmentation and bufsize from 1, iterated with seeded reader options. distinct = distinct (items, stream kind, "
     "bufsize, arrival schedule, options) digests; non-trivial = >= 1 frame delivered AND >= 1 foreign item or filler "
     "in the script or >= 1 arrival boundary strictly inside a frame."
@@ -37,7 +37,7 @@ def generate(master, index, tier):
     if index % 50 == 7:
         # deep filler history: > 1000 consecutive zero-length frames, then a frame
         items = W.gen_long_error_run(rng, rng.choice((300, 1100, 1600)), style=2) + [W.gen_frame(rng)]
-    kind = rng.choice(("bytesio", "buffered", "socket", "socket"))
+    kind = rng.choice(("bytesio", "buffered", "socket", "socket", "serial"))
     return {
         "prop": PROP,
         "kind": kind,
@@ -61,7 +61,8 @@ def run_reader(scn, data, validate=1, kind=None, opts=None):
         decider = ScriptDecider([tuple(d) for d in scn["decisions"]])
     else:
         sch = scn["sched"]
-        decider = RngDecider(R.random.Random(sch["seed"]), {"seg": sch["seg"]})
+        # a serial port that delivers fewer bytes than asked is a fault (timeout), not segmentation
+        decider = RngDecider(R.random.Random(sch["seed"]), {"seg": "full" if kind == "serial" else sch["seg"]})
     budget = 8 * len(data) + 600
     st = W.Stream(kind, data, decider, budget, rawbuf=scn.get("rawbuf", 64))
     calls = []
